@@ -177,3 +177,11 @@ pub fn forbid_hits() -> u64 {
 pub fn set_cap(cap: usize) {
     CAP.store(cap, Ordering::Relaxed);
 }
+
+/// (address, size) of this module's thread-local cells on the calling thread (for the TLS comparison's exclusion list).
+pub fn tls_cells() -> Vec<(usize, usize)> {
+    fn r<T>(x: &T) -> (usize, usize) {
+        (x as *const T as usize, std::mem::size_of::<T>())
+    }
+    vec![LIVE.with(r), PEAK.with(r), COUNT.with(r), FORBID.with(r), FORBID_HITS.with(r), MAXREQ.with(r), BASE.with(r), OFFSET.with(r), PAUSED.with(r)]
+}
